@@ -501,11 +501,20 @@ func (w *Writer) finishSection() error {
 				panic("fail on fresh block")
 			}
 		}
+		// Flush the last block of this level, so that it
+		// gets an entry in the next level too.
+		if err := w.flushBlock(); err != nil {
+			return err
+		}
+		if len(w.index) >= len(idx) {
+			// The keys are so long that this level has as
+			// many blocks as the level below has entries.
+			// Another level would not be any smaller: stop,
+			// the reader scans the blocks of the top level.
+			break
+		}
 	}
 	w.index = nil
-	if err := w.flushBlock(); err != nil {
-		return err
-	}
 
 	blockStats := w.getBlockStats(typ)
 	blockStats.IndexBlocks = w.Stats.idxStats.Blocks - before
